@@ -937,11 +937,10 @@ pub fn ops() -> Vec<Op> {
             let (i, j) = (a[1].u(), a[2].u());
             let n = raw.len() as u64;
             if i <= j && j <= n {
-                if i == n {
-                    // the empty range at the very end: the documentation does
-                    // not say whether start == len is "out of bounds" (N6)
-                    return Ref::Unspecified;
-                }
+                // the empty range at the very end included: `end == len` is in
+                // bounds (slice(1, len) is Some), so `start == len` is too, as
+                // for `&v[len..len]`, `chars().slice(len, len)` and the same
+                // lines when the text ends in a newline
                 is(V::some(V::Str(raw[i as usize..j as usize].concat())))
             } else {
                 is(V::none())
